@@ -747,6 +747,9 @@ func harmlessArgs(r *rng, fnID string, tmpFile string) ([]any, []string) {
 			{"relative-missing-file-verif", "relative-missing"},
 		}
 		o := opts[r.intn(len(opts))]
+		if r.chance(1, 2) {
+			o = opts[0] // half of the calls read a file that is there (the only calls that return content)
+		}
 		return []any{o.p}, []string{"string:" + o.c}
 	case "getEnvVar":
 		name := r.pick([]string{"VERIF_C18_SET", "VERIF_C18_UNSET", "", "A=B", "é", "a\x00b"})
@@ -1061,6 +1064,9 @@ func runConcCase(fns map[string]schema.CallableFunction, id, label string, targe
 		goroutine, iteration int
 		got                  callOutcome
 	}
+	// a FRESH function table for the concurrent phase: whatever a function sets up on first use (the expected outcomes were
+	// computed on `fns`) is set up while the other goroutines are calling it too, as in the first parallel items of a loop
+	fns = builtinfunctions.GetFunctions()
 	misses := make([][]miss, len(targets))
 	counts := make([]int, len(targets))
 	gate := make(chan struct{})
